@@ -64,5 +64,4 @@ package share
 // (read-only helpers)
 //@ func toCoreNMTProof
 //@   property C12
-//@   trusted
 //@ extern (*github.com/celestiaorg/celestia-node/share/shwap.RangeNamespaceData).Flatten
